@@ -116,6 +116,11 @@ C02_PlainTree ==
         /\ IsPlain(ev.tree)
         /\ (ev.op = "RoundTrip" \/ ~ev.virtual) => TreeKeys(ev.tree) \cap VirtualKeys = {}
 
+(* C06 on this machine: a rejected assignment (also of a map to a sub-configuration that has a key
+   file of its own, also after the configuration has been rendered or saved) changes nothing *)
+A_SetUnchanged == (ev'.op \in {"Set", "Adopt"} /\ ev'.out # "ok") => cfg' = cfg
+C06_SetUnchanged == [][A_SetUnchanged]_vars
+
 (* C03 *)
 \* every encrypted leaf carries a concrete method and the key of the nearest ancestor that
 \* names one - computed here from the CONTAINMENT path, independently of BindKeys
